@@ -26,11 +26,12 @@ def qtys(tier):
 
 def items(tier):
     out = []
+    # the quote table varies fastest: consecutive executions in one process use other quotes at the same instant
     for fee in fees(tier):
-        for table in (0, 1, 2, 3):
-            for asset in ('A', 'B'):
-                for q in qtys(tier):
-                    for j in OPEN_INSTANTS:
+        for asset in ('A', 'B'):
+            for q in qtys(tier):
+                for j in OPEN_INSTANTS:
+                    for table in (0, 1, 2, 3):
                         out.append({'fee': list(fee), 'history': [list(e) for e in INIT] + [
                             ['quotes', table], ['submit', '1', asset, q], ['tick', j]]})
     # two-order batches: buy and sell of the same size in one update (incl. the symmetric table)
@@ -81,6 +82,45 @@ def evaluate(case):
     return m, fails, txns
 
 
+def two_brokers(case):
+    """Two live brokers with differently quoting data handlers, used alternately at the same instant: every fill
+    must come from its own broker's data handler."""
+    fee = tuple(case['fee'])
+    x, y = bm.BrokerMachine(fee), bm.BrokerMachine(fee)
+    fails = []
+    for m in (x, y):
+        for ev in INIT:
+            m.step(tuple(ev), check=False)
+    x.step(('quotes', case['tx']), check=False)
+    y.step(('quotes', case['ty']), check=False)
+    j, a, q = case['instant'], case['asset'], case['qty']
+    plan = [(x, ('submit', '1', a, q)), (x, ('tick', j)), (y, ('submit', '1', a, -q)), (y, ('tick', j)),
+            (x, ('submit', '1', a, q)), (x, ('tick', j)), (y, ('submit', '1', a, q)), (y, ('tick', j))]
+    n = 0
+    for m, ev in plan:
+        f = m.step(ev, check=True)
+        n += len(m.step_txns)
+        fails += [dict(g, case=dict(case, kind='two_brokers')) for g in f if g['clause'].startswith('C05.')]
+    if n != 4:
+        fails.append(dict(bm.fail('C05.no_fill_observed', {'fills': n, 'expected': 4}), case=dict(case, kind='two_brokers')))
+    return {'viols': fails[:4], 'execs': 2, 'evals': 4, 'nontrivial': fee[0] != 'zero',
+            'outcome': ('two', repr(sorted(case.items(), key=str)))}
+
+
+def two_broker_items(tier):
+    out = []
+    for fee in (('zero',), ('pct', '0.001', '0.0025')):
+        for tx in (0, 1, 2, 3):
+            for ty in (0, 1, 2, 3):
+                if tx == ty:
+                    continue
+                for a in ('A', 'B'):
+                    for q in ((7, -100) if tier == 'quick' else (1, 7, -100, -333)):
+                        for j in ((3,) if tier == 'quick' else OPEN_INSTANTS):
+                            out.append({'fee': list(fee), 'tx': tx, 'ty': ty, 'asset': a, 'qty': q, 'instant': j})
+    return out
+
+
 def point(case):
     m, fails, txns = evaluate(case)
     own = [dict(f, case=case) for f in fails if f['clause'].startswith('C05.')]
@@ -103,8 +143,12 @@ def run(tier, res, is_known):
         'consideration rounding: nearest integer, both neighbours accepted at an exact tie (counted as boundary_ambiguous)',
     ]
     product(point, its, res, is_known, label='fills', sample_every=997)
+    product(two_brokers, two_broker_items(tier), res, is_known, label='two live brokers, alternating')
 
 
 def replay(case):
+    if case.get('kind') == 'two_brokers':
+        c = {k: v for k, v in case.items() if k != 'kind'}
+        return two_brokers(c)['viols']
     _, fails, _ = evaluate(case)
     return [f for f in fails if f['clause'].startswith('C05.')]
